@@ -22,8 +22,12 @@ class Access:
         return f"{self.kind}:{self.path}@{getattr(self.node, 'lineno', '?')}"
 
 
-def const_list_of(func_node, name):
-    """If local `name` is assigned exactly once, to a list/tuple of string constants, return them."""
+MODULE_CONSTS = {}      # filled by Effects: {module name: {NAME: [str constants]}}
+
+
+def const_list_of(func_node, name, module=None):
+    """If local `name` is assigned exactly once, to a list/tuple of string constants, return them (a module-level tuple / list
+    of string constants counts when the function does not re-bind the name)."""
     vals = None
     n_assign = 0
     for n in ast.walk(func_node):
@@ -34,6 +38,10 @@ def const_list_of(func_node, name):
                     if isinstance(n.value, (ast.List, ast.Tuple)) and all(
                             isinstance(x, ast.Constant) and isinstance(x.value, str) for x in n.value.elts):
                         vals = [x.value for x in n.value.elts]
+    if n_assign == 0:
+        for consts in MODULE_CONSTS.values():
+            if name in consts:
+                return consts[name]
     return vals if n_assign == 1 else None
 
 
@@ -190,6 +198,12 @@ class Effects:
 
     def __init__(self, model, callgraph):
         self.m, self.cg = model, callgraph
+        for mod in model.modules.values():
+            d = {}
+            for nm, v in mod.assigns.items():
+                if isinstance(v, (ast.List, ast.Tuple)) and v.elts and all(isinstance(x, ast.Constant) and isinstance(x.value, str) for x in v.elts):
+                    d[nm] = [x.value for x in v.elts]
+            MODULE_CONSTS[mod.name] = d
         self.acc = {f.id: scan_accesses(f.node) for f in model.all_funcs()}
         self.funcs = {f.id: f for f in model.all_funcs()}
 
